@@ -22,6 +22,100 @@ STEP_TEXT = {'setitem': 'd[o] = p on every stored outcome', 'pmfidx': 'd.pmf[i] 
              'rename': 'set_rv_names(permuted names)'}
 
 
+# ... and changes of the REPRESENTATION of the same object (set_base in place: linear <-> log, log -> log), after which
+# the Shannon quantities are the definitions in units of the base the object has then.
+ALL_BASES = ['linear'] + LOG_BASES
+# what may have happened EARLIER IN THE SAME PROCESS to OTHER distributions (a prelude of unrelated work)
+BEFORE_KINDS = ['set_base', 'set_base', 'copy', 'none']
+
+
+def unit_of(base):
+    """bits per unit of `base` (1 for linear distributions, whose entropies are in bits)."""
+    return 1.0 if base == 'linear' else math.log2(gen.base_num(base))
+
+
+def rand_before(rng):
+    """1-3 pieces of unrelated work: a small distribution is constructed in base b0 and then rebased in place /
+    copied into base b1 / left alone."""
+    return [[rng.choice(ALL_BASES), rng.choice(BEFORE_KINDS), rng.choice(ALL_BASES), rng.randrange(10 ** 6)]
+            for _ in range(rng.choice([1, 2, 2, 3]))]
+
+
+def rand_base_steps(rng):
+    return [['setbase', rng.randrange(10 ** 6)] for _ in range(rng.choice([1, 1, 2, 3]))]
+
+
+def run_before(dit, H1, ops):
+    """Carry out the prelude on distributions of its own; every one of them must itself have the entropy of its
+    definition (in units of the base it has at that moment).  Returns None or a message."""
+    for b0, kind, b1, seed in ops:
+        mrng = random.Random(seed)
+        k = mrng.randint(2, 4)
+        w = [mrng.choice([1, 1, 2, 3, 5]) for _ in range(k)]
+        probs = [Fraction(x, sum(w)) for x in w]
+        href = -sum(float(q) * math.log2(float(q)) for q in probs)
+        vals = [gen.log_of(q, b0) for q in probs]
+        if mrng.random() < 0.3:
+            o = dit.ScalarDistribution(list(range(k)), vals, base=b0)
+        else:
+            o = dit.Distribution([str(i) for i in range(k)], vals, base=b0)
+        objs = [(o, b0, 'constructed in base %s' % b0)]
+        if kind == 'set_base':
+            o.set_base(b1)
+            objs = [(o, b1, 'constructed in base %s, then set_base(%s) in place' % (b0, b1))]
+        elif kind == 'copy':
+            objs.append((o.copy(base=b1), b1, 'copy(base=%s) of a distribution constructed in base %s' % (b1, b0)))
+        for obj, b, text in objs:
+            v = float(H1(obj))
+            ref = href / unit_of(b)
+            if not math.isfinite(v) or abs(v - ref) > 1e-9 * max(1.0, abs(ref)):
+                return 'entropy of %s with probabilities %s is %r, the definition gives %r (units of base %s)' % (
+                    text, [str(q) for q in probs], v, ref, b)
+    return None
+
+
+PROBE_P = [Fraction(1, 2), Fraction(1, 4), Fraction(1, 8), Fraction(1, 8)]
+
+
+def probe(dit, full):
+    """The Shannon-type quantities of a FRESH linear distribution (1/2, 1/4, 1/8, 1/8) on '00','01','10','11' against the
+    definitions (in bits; Tsallis of order 1 in nats), and the entropy of the same probabilities freshly constructed as
+    log probabilities in every base of the log family (in units of the base).  Returns None or a message."""
+    try:
+        return probe_(dit, full)
+    except Exception as e:  # noqa
+        return 'constructing a fresh distribution with probabilities (1/2, 1/4, 1/8, 1/8) / evaluating its entropy raised %s: %s' % (
+            type(e).__name__, str(e)[:150])
+
+
+def probe_(dit, full):
+    from dit.shannon import entropy as H1, conditional_entropy, mutual_information
+    from dit.other import renyi_entropy, tsallis_entropy, extropy, perplexity
+    ps = [float(q) for q in PROBE_P]
+
+    def h(qs):
+        return -sum(q * math.log2(q) for q in qs if q > 0)
+    s = dit.ScalarDistribution(ps)
+    got = [('entropy(ScalarDistribution)', float(H1(s)), h(ps))]
+    if full:
+        j = dit.Distribution(['00', '01', '10', '11'], ps)
+        h0, h1_, h01 = h([ps[0] + ps[1], ps[2] + ps[3]]), h([ps[0] + ps[2], ps[1] + ps[3]]), h(ps)
+        got += [('entropy(joint)', float(H1(j)), h01), ('H(X0)', float(H1(j, [0])), h0),
+                ('H(X0|X1)', float(conditional_entropy(j, [0], [1])), h01 - h1_),
+                ('I(X0:X1)', float(mutual_information(j, [0], [1])), h0 + h1_ - h01),
+                ('renyi(1)', float(renyi_entropy(j, 1)), h01),
+                ('tsallis(1)', float(tsallis_entropy(j, 1)), h01 * math.log(2)),
+                ('extropy(ScalarDistribution)', float(extropy(s)), -sum((1 - q) * math.log2(1 - q) for q in ps)),
+                ('perplexity(joint)', float(perplexity(j)), 2 ** h01)]
+    for b in LOG_BASES:
+        o = dit.ScalarDistribution(list(range(len(ps))), [gen.log_of(q, b) for q in PROBE_P], base=b)
+        got.append(('entropy(ScalarDistribution constructed in base %s, in units of the base)' % b, float(H1(o)), h(ps) / unit_of(b)))
+    for label, v, ref in got:
+        if not math.isfinite(v) or abs(v - ref) > 1e-9 * max(1.0, abs(ref)):
+            return '%s of a freshly constructed distribution with probabilities (1/2, 1/4, 1/8, 1/8) is %r, the definition gives %r' % (label, v, ref)
+    return None
+
+
 def rand_names(rng, n):
     """Single-character or integer variable names in ARBITRARY order (the order of the names is unrelated to the order
     of the columns; integer names may be a permutation of the column indices)."""
@@ -65,7 +159,12 @@ class C04(object):
             "the base); about half of the cases continue "
             "on the SAME object with 1-2 in-place changes (d[o]=p on stored outcomes, d.pmf[i]=p, d.pmf[:]=..., integer "
             "weights + normalize(), set_rv_names with permuted names), each followed by a second evaluation of the same "
-            "quantities against the definitions on the then-current table; "
+            "quantities against the definitions on the then-current table; Shannon / extropy / perplexity cases (linear "
+            "and log families) may instead continue with 1-3 in-place set_base changes of the same object (linear <-> log, "
+            "log -> log), judged in units of the base the object has then; about a third of all cases start with a prelude "
+            "of unrelated work in the same process (1-3 other distributions constructed in a base and rebased in place / "
+            "copied into another base, each judged against its own definition) and every case ends with the quantities "
+            "of a freshly constructed linear distribution against the definitions; "
             "non-trivial = at least two positive probabilities and a non-empty X")
     tolerances = {'values': 'atol 1e-9 (Float evaluation of the model definitions vs NumPy)'}
     exhaustive = {'thorough': True}
@@ -124,6 +223,10 @@ class C04(object):
                 big = max(range(k), key=lambda i: Fraction(c['pmf'][i]))
                 c['pmf'] = [str(1 - (k - 1) * eps) if i == big else str(eps) for i in range(k)]
             c['then'] = rand_steps(rng, c) if rng.random() < 0.5 else []
+            if what in ('shannon', 'other') and rng.random() < 0.2:
+                c['then'] = rand_base_steps(rng)
+            if rng.random() < 0.35:
+                c['before'] = rand_before(rng)
             yield c
         # variables addressed by name on three or four columns, names in arbitrary order (any grouping of the columns
         # into X and Y, in the order the caller happens to list them)
@@ -142,6 +245,8 @@ class C04(object):
             if c['what'] != 'shannon':
                 gen.avoid_subnull(c)
             c['then'] = rand_steps(rng, c) if rng.random() < 0.3 else []
+            if rng.random() < 0.35:
+                c['before'] = rand_before(rng)
             yield c
         # the same quantities on distributions stored as log probabilities: "the entropy is calculated in whatever base
         # matches the distribution's pmf" (entropy / extropy have a branch of their own for them).  Renyi and Tsallis
@@ -161,7 +266,9 @@ class C04(object):
             c['rvs'] = rng.random() < 0.5
             if c['what'] != 'shannon':
                 gen.avoid_subnull(c)
-            c['then'] = []
+            c['then'] = rand_base_steps(rng) if rng.random() < 0.5 else []
+            if rng.random() < 0.35:
+                c['before'] = rand_before(rng)
             yield c
 
     def shrink(self, case):
@@ -181,6 +288,11 @@ class C04(object):
             c = dict(case)
             c['then'] = then[:i] + then[i + 1:]
             yield c
+        before = case.get('before') or []
+        for i in range(len(before)):
+            c = dict(case)
+            c['before'] = before[:i] + before[i + 1:]
+            yield c
         for key, val in (('sparse', True), ('trim', True), ('space', None), ('byname', False), ('implicit', False)):
             if case.get(key, val) != val:
                 c = dict(case)
@@ -194,6 +306,12 @@ class C04(object):
         from dit.other import renyi_entropy, tsallis_entropy, extropy, perplexity
         r = core.Result()
         what = case['what']
+        if probe(dit, False) is not None:
+            # an EARLIER case run in this process left process-wide state behind (that case has been reported: every
+            # case ends with this probe); nothing this case could show would be about its own input
+            r.features = ['process-state-changed-by-an-earlier-case']
+            r.detail = {'skipped': probe(dit, False)}
+            return r
         r.site = {'shannon': 'dit.shannon', 'renyi': 'dit.other.renyi_entropy', 'tsallis': 'dit.other.tsallis_entropy',
                   'other': 'dit.other.extropy/perplexity'}[what]
         if what == 'shannon' and case['byname']:
@@ -217,12 +335,24 @@ class C04(object):
                       'vars-in-XuY=%d' % len(set(X) | set(Y)),
                       'base=%s' % case.get('base', 'linear'),
                       'steps=%d' % len(steps)] + ['step=%s' % k for k, _ in steps]
+        before = [list(b) for b in (case.get('before') or [])]
+        r.features += ['before=%d' % len(before)] + ['before=%s:%s->%s' % (
+            b[1], 'log2' if b[0] == 2 else 'linear' if b[0] == 'linear' else 'log', 'log2' if b[2] == 2 else 'linear' if b[2] == 'linear' else 'log')
+            for b in before if b[1] != 'none']
         base = case.get('base', 'linear')
         logb = base != 'linear'
-        # a log distribution's entropies come in units of its base: value in bits / log2(base)
-        unit = math.log2(gen.base_num(base)) if logb else 1.0
-        if logb and (what not in ('shannon', 'other') or steps):
-            raise ValueError('log-base cases: Shannon quantities, extropy, perplexity, no in-place changes')
+        base_steps = any(k == 'setbase' for k, _ in steps)
+        if (logb or base_steps) and (what not in ('shannon', 'other') or any(k != 'setbase' for k, _ in steps)):
+            raise ValueError('log-base cases: Shannon quantities, extropy, perplexity; in-place changes of the base only')
+        if before:
+            try:
+                msg = run_before(dit, H1, before)
+            except Exception as e:  # noqa
+                msg = 'raised %s: %s' % (type(e).__name__, str(e)[:150])
+            if msg:
+                r.site = 'dit.shannon(unrelated distributions, base changes)'
+                r.oracle_fail = 'unrelated work before the case: ' + msg
+                return r
         if scalar and logb:
             u = gen.UNIVERSE[klass]
             d = dit.ScalarDistribution([u[o[0]] for o in case['outs']], [gen.log_of(Fraction(p), base) for p in case['pmf']],
@@ -240,16 +370,18 @@ class C04(object):
             r.features.append('rv_mode=implicit')
         else:
             rv_mode = 'names' if byname else 'indices'
-        state = {'names': names}
+        # the base the object has at the moment (in-place set_base steps change it); a log distribution's entropies
+        # come in units of its base: value in bits / log2(base)
+        state = {'names': names, 'base': base}
 
         def table():
             # stored outcomes with their LINEAR probabilities (a log distribution's stored values exponentiated)
             return [(gen.from_py(o, klass) if not scalar else [gen.UNIVERSE[klass].index(o)],
-                     gen.lin_of(v, base) if logb else float(v))
+                     gen.lin_of(v, state['base']) if state['base'] != 'linear' else float(v))
                     for o, v in zip(d.outcomes, d.pmf)]
 
         def U(x):
-            return x / unit if logb else x
+            return x / unit_of(state['base']) if state['base'] != 'linear' else x
 
         def nm(idx):
             return [state['names'][i] for i in idx] if byname else list(idx)
@@ -346,6 +478,12 @@ class C04(object):
 
         def apply_step(kind, seed):
             """One in-place change of `d` (the object the quantities were just computed on)."""
+            if kind == 'setbase':
+                mrng = random.Random(seed)
+                new = mrng.choice([b for b in ALL_BASES if b != state['base']])
+                d.set_base(new)
+                state['base'] = new
+                return 'd.set_base(%s) in place' % new
             if kind == 'rename' and (scalar or state['names'] is None or n < 2):
                 kind = 'setitem'
             if kind == 'rename':
@@ -385,6 +523,12 @@ class C04(object):
         all_checks = []
         base_site = r.site
         stage = ' [log distribution, base %s: entropies in units of the base]' % base if logb else ''
+        if before:
+            stage += ' [after unrelated work in the same process: %s]' % '; '.join(
+                'a distribution constructed in base %s%s' % (b[0], {'set_base': ', set_base(%s) in place' % b[2], 'copy': ', copy(base=%s)' % b[2]}.get(b[1], ''))
+                for b in before)
+        stage0 = stage if before else ''
+        done = []
         for si in range(len(steps) + 1):
             if si > 0:
                 kind, seed = steps[si - 1]
@@ -393,8 +537,9 @@ class C04(object):
                 except Exception as e:  # noqa
                     r.oracle_fail = 'in-place change (%s) raised %s: %s' % (STEP_TEXT.get(kind, kind), type(e).__name__, str(e)[:150])
                     return r
-                stage = ' [same object, after %s]' % '; then '.join(STEP_TEXT[k] if not (k == 'rename' and (scalar or names is None or n < 2)) else STEP_TEXT['setitem']
-                                                                    for k, _ in steps[:si])
+                done.append(kind if kind.startswith('d.set_base') else STEP_TEXT[kind])
+                stage = ' [same object, after %s%s]' % ('; then '.join(done), '; entropies in units of base %s' % state['base']
+                                                        if state['base'] != 'linear' else '') + stage0
                 if not r.mismatch:
                     r.site = base_site + '(after in-place change)'
             rows = table()
@@ -434,6 +579,13 @@ class C04(object):
             except Exception as e:  # noqa
                 r.oracle_fail = 'entropy after the calls raised %s%s' % (type(e).__name__, stage)
                 return r
+        # whatever this case did (to its own object and to the unrelated ones before it), a linear distribution
+        # constructed NOW has the quantities of the definitions
+        msg = probe(dit, True)
+        if msg:
+            r.site = 'dit.shannon(a fresh distribution after the case)'
+            hist = stage if (before or steps) else ' [after the %s case on another distribution%s]' % (what, stage)
+            r.oracle_fail = msg + ' -- after, in the same process:' + hist
         return r
 
 
